@@ -246,6 +246,7 @@ fn hist_case(line: &str) -> String {
     let queries: Vec<String> = case["queries"].as_array().map(|a| a.iter().map(|q| q.as_str().unwrap_or("").to_string()).collect()).unwrap_or_default();
     let ops: Vec<(usize, usize)> = case["ops"].as_array().map(|a| a.iter().map(|o| (o[0].as_u64().unwrap() as usize, o[1].as_u64().unwrap() as usize)).collect()).unwrap_or_default();
     let threads = case["threads"].as_u64().unwrap_or(4) as usize;
+    let repeat = case["repeat"].as_u64().unwrap_or(1) as usize;
     let render = |doc: &Value, rs: Result<Vec<jsonpath_rust::query::QueryRef<Value>>, jsonpath_rust::parser::errors::JsonPathError>| -> String {
         match rs {
             Ok(rs) => format!("[{}]", rs.into_iter().map(|r| { let p = r.clone().path(); let v = r.val(); let mut acc = vec![]; locate(doc, v, &mut acc); format!("[{},[{}]]", cps(&p), acc.join(",")) }).collect::<Vec<_>>().join(",")),
@@ -272,7 +273,7 @@ fn hist_case(line: &str) -> String {
             handles.push(std::thread::spawn(move || {
                 let mut out = vec![];
                 let n = o.len();
-                for k in 0..n {
+                for k in 0..n * repeat {
                     let (qi, di) = o[(k + t * 7) % n.max(1)];
                     let s = match &p[qi] {
                         Ok(q) => match js_path_process(q, &d[di]) {
@@ -306,76 +307,97 @@ fn hist_case(line: &str) -> String {
 }
 
 /// A second, differently represented implementation of `Queryable` (members in a Vec, own number split).
-/// Deliberately unlike `serde_json::Value` wherever the trait allows it: members in a `Vec` in document order, a separate
-/// unsigned variant, a lossy `Debug` (the engine must not depend on it), no override of the defaulted `reference` methods.
-#[derive(Clone, PartialEq, Default)]
-enum Alt {
-    #[default]
+/// Two faithful `Queryable` views of JSON, deliberately unlike `serde_json::Value` wherever the trait allows it: members in a
+/// `Vec` in document order, a separate unsigned variant, a lossy `Debug`, no override of the defaulted `reference` methods, a
+/// `Default` that is not `null()`.  `AltG<false>`: `PartialEq` structural (1 != 1.0, like serde_json);  `AltG<true>`: `PartialEq` by
+/// JSON value (1 == 1.0, objects as maps).  The engine's results must not depend on any of this.
+#[derive(Clone)]
+enum AltG<const V: bool> {
     Null,
     Bool(bool),
     Int(i64),
     Uint(u64),
     Float(f64),
     Str(String),
-    Arr(Vec<Alt>),
-    Obj(Vec<(String, Alt)>),
+    Arr(Vec<AltG<V>>),
+    Obj(Vec<(String, AltG<V>)>),
 }
-impl std::fmt::Debug for Alt {
+impl<const V: bool> std::fmt::Debug for AltG<V> {
     fn fmt(&self, f: &mut std::fmt::Formatter<'_>) -> std::fmt::Result { write!(f, "Alt") }
 }
-impl From<&str> for Alt { fn from(s: &str) -> Self { Alt::Str(s.to_string()) } }
-impl From<String> for Alt { fn from(s: String) -> Self { Alt::Str(s) } }
-impl From<bool> for Alt { fn from(b: bool) -> Self { Alt::Bool(b) } }
-impl From<i64> for Alt { fn from(i: i64) -> Self { Alt::Int(i) } }
-impl From<f64> for Alt { fn from(f: f64) -> Self { if f.is_finite() { Alt::Float(f) } else { Alt::Null } } }
-impl From<Vec<Alt>> for Alt { fn from(v: Vec<Alt>) -> Self { Alt::Arr(v) } }
-impl Alt {
-    fn of(v: &Value) -> Alt {
+impl<const V: bool> From<&str> for AltG<V> { fn from(s: &str) -> Self { AltG::Str(s.to_string()) } }
+impl<const V: bool> From<String> for AltG<V> { fn from(s: String) -> Self { AltG::Str(s) } }
+impl<const V: bool> From<bool> for AltG<V> { fn from(b: bool) -> Self { AltG::Bool(b) } }
+impl<const V: bool> From<i64> for AltG<V> { fn from(i: i64) -> Self { AltG::Int(i) } }
+impl<const V: bool> From<f64> for AltG<V> { fn from(f: f64) -> Self { if f.is_finite() { AltG::Float(f) } else { AltG::Null } } }
+impl<const V: bool> From<Vec<AltG<V>>> for AltG<V> { fn from(v: Vec<AltG<V>>) -> Self { AltG::Arr(v) } }
+impl<const V: bool> AltG<V> {
+    fn of(v: &Value) -> AltG<V> {
         match v {
-            Value::Null => Alt::Null,
-            Value::Bool(b) => Alt::Bool(*b),
-            Value::Number(n) => if let Some(i) = n.as_i64() { Alt::Int(i) } else if let Some(u) = n.as_u64() { Alt::Uint(u) } else { Alt::Float(n.as_f64().unwrap()) },
-            Value::String(s) => Alt::Str(s.clone()),
-            Value::Array(a) => Alt::Arr(a.iter().map(Alt::of).collect()),
-            Value::Object(o) => Alt::Obj(o.iter().map(|(k, v)| (k.clone(), Alt::of(v))).collect()),
+            Value::Null => AltG::Null,
+            Value::Bool(b) => AltG::Bool(*b),
+            Value::Number(n) => if let Some(i) = n.as_i64() { AltG::Int(i) } else if let Some(u) = n.as_u64() { AltG::Uint(u) } else { AltG::Float(n.as_f64().unwrap()) },
+            Value::String(s) => AltG::Str(s.clone()),
+            Value::Array(a) => AltG::Arr(a.iter().map(AltG::<V>::of).collect()),
+            Value::Object(o) => AltG::Obj(o.iter().map(|(k, v)| (k.clone(), AltG::<V>::of(v))).collect()),
         }
     }
     fn back(&self) -> Value {
         match self {
-            Alt::Null => Value::Null,
-            Alt::Bool(b) => Value::Bool(*b),
-            Alt::Int(i) => Value::from(*i),
-            Alt::Uint(u) => Value::from(*u),
-            Alt::Float(f) => Value::from(*f),
-            Alt::Str(s) => Value::String(s.clone()),
-            Alt::Arr(a) => Value::Array(a.iter().map(|x| x.back()).collect()),
-            Alt::Obj(o) => Value::Object(o.iter().map(|(k, v)| (k.clone(), v.back())).collect()),
+            AltG::Null => Value::Null,
+            AltG::Bool(b) => Value::Bool(*b),
+            AltG::Int(i) => Value::from(*i),
+            AltG::Uint(u) => Value::from(*u),
+            AltG::Float(f) => Value::from(*f),
+            AltG::Str(s) => Value::String(s.clone()),
+            AltG::Arr(a) => Value::Array(a.iter().map(|x| x.back()).collect()),
+            AltG::Obj(o) => Value::Object(o.iter().map(|(k, v)| (k.clone(), v.back())).collect()),
         }
     }
 }
-impl Queryable for Alt {
+impl<const V: bool> Queryable for AltG<V> {
     fn get(&self, key: &str) -> Option<&Self> {
         let key = if key.starts_with('\'') && key.ends_with('\'') { key.trim_matches(|c| c == '\'') }
                   else if key.starts_with('"') && key.ends_with('"') { key.trim_matches(|c| c == '"') } else { key };
-        match self { Alt::Obj(o) => o.iter().find(|(k, _)| k == key).map(|(_, v)| v), _ => None }
+        match self { AltG::Obj(o) => o.iter().find(|(k, _)| k == key).map(|(_, v)| v), _ => None }
     }
-    fn as_array(&self) -> Option<&Vec<Self>> { match self { Alt::Arr(a) => Some(a), _ => None } }
-    fn as_object(&self) -> Option<Vec<(&String, &Self)>> { match self { Alt::Obj(o) => Some(o.iter().map(|(k, v)| (k, v)).collect()), _ => None } }
-    fn as_str(&self) -> Option<&str> { match self { Alt::Str(s) => Some(s), _ => None } }
-    fn as_i64(&self) -> Option<i64> { match self { Alt::Int(i) => Some(*i), Alt::Uint(u) => i64::try_from(*u).ok(), _ => None } }
-    fn as_f64(&self) -> Option<f64> { match self { Alt::Float(f) => Some(*f), Alt::Int(i) => Some(*i as f64), Alt::Uint(u) => Some(*u as f64), _ => None } }
-    fn as_bool(&self) -> Option<bool> { match self { Alt::Bool(b) => Some(*b), _ => None } }
-    fn null() -> Self { Alt::Null }
+    fn as_array(&self) -> Option<&Vec<Self>> { match self { AltG::Arr(a) => Some(a), _ => None } }
+    fn as_object(&self) -> Option<Vec<(&String, &Self)>> { match self { AltG::Obj(o) => Some(o.iter().map(|(k, v)| (k, v)).collect()), _ => None } }
+    fn as_str(&self) -> Option<&str> { match self { AltG::Str(s) => Some(s), _ => None } }
+    fn as_i64(&self) -> Option<i64> { match self { AltG::Int(i) => Some(*i), AltG::Uint(u) => i64::try_from(*u).ok(), _ => None } }
+    fn as_f64(&self) -> Option<f64> { match self { AltG::Float(f) => Some(*f), AltG::Int(i) => Some(*i as f64), AltG::Uint(u) => Some(*u as f64), _ => None } }
+    fn as_bool(&self) -> Option<bool> { match self { AltG::Bool(b) => Some(*b), _ => None } }
+    fn null() -> Self { AltG::Null }
     fn extension_custom(name: &str, args: Vec<std::borrow::Cow<Self>>) -> Self {
         let vals: Vec<std::borrow::Cow<Value>> = args.iter().map(|a| std::borrow::Cow::Owned(a.back())).collect();
-        Alt::of(&<Value as Queryable>::extension_custom(name, vals))
+        AltG::<V>::of(&<Value as Queryable>::extension_custom(name, vals))
     }
 }
 
-fn generic_case(line: &str) -> String {
+impl<const V: bool> Default for AltG<V> {
+    fn default() -> Self { if V { AltG::Str("default".to_string()) } else { AltG::Obj(vec![]) } }
+}
+impl<const V: bool> PartialEq for AltG<V> {
+    fn eq(&self, other: &Self) -> bool {
+        fn num<const V: bool>(a: &AltG<V>) -> Option<f64> { match a { AltG::Int(i) => Some(*i as f64), AltG::Uint(u) => Some(*u as f64), AltG::Float(f) => Some(*f), _ => None } }
+        match (self, other) {
+            (AltG::Null, AltG::Null) => true,
+            (AltG::Bool(a), AltG::Bool(b)) => a == b,
+            (AltG::Str(a), AltG::Str(b)) => a == b,
+            (AltG::Arr(a), AltG::Arr(b)) => a == b,
+            (AltG::Obj(a), AltG::Obj(b)) => if V { a.len() == b.len() && a.iter().all(|(k, x)| b.iter().any(|(k2, y)| k == k2 && x == y)) } else { a == b },
+            (a, b) => if V { match (num(a), num(b)) { (Some(x), Some(y)) => x == y, _ => false } } else {
+                match (a, b) { (AltG::Int(x), AltG::Int(y)) => x == y, (AltG::Uint(x), AltG::Uint(y)) => x == y, (AltG::Float(x), AltG::Float(y)) => x == y, _ => false } },
+        }
+    }
+}
+type Alt = AltG<false>;
+type Alt2 = AltG<true>;
+
+fn generic_case<const V: bool>(line: &str) -> String {
     let case: Value = match serde_json::from_str(line) { Ok(v) => v, Err(e) => return format!("{{\"badjson\":\"{}\"}}", e) };
     let q = case["q"].as_str().unwrap_or("").to_string();
-    let doc = Alt::of(&case["doc"]);
+    let doc = AltG::<V>::of(&case["doc"]);
     match std::panic::catch_unwind(|| {
         match jsonpath_rust::query::js_path(&q, &doc) {
             Ok(rs) => format!("{{\"ok\":[{}]}}", rs.into_iter().map(|r| { let p = r.clone().path(); let v = r.val(); format!("{{\"p\":{},\"v\":{}}}", cps(&p), canon(&v.back())) }).collect::<Vec<_>>().join(",")),
@@ -509,7 +531,8 @@ fn main() {
             "regex" => regex_case(&line),
             "ref" => ref_case(&line),
             "hist" => hist_case(&line),
-            "generic" => generic_case(&line),
+            "generic" => generic_case::<false>(&line),
+            "generic2" => generic_case::<true>(&line),
             "ast" => ast_case(&line),
             _ => parse_case(&line),
         };
